@@ -372,14 +372,14 @@ func (g *ValueGen) Gen(t *Type, depth int) *Val {
 }
 
 func (g *ValueGen) count(depth int) int {
+	if depth >= g.MaxDepth {
+		return 0
+	}
 	switch g.Mode {
 	case 1:
 		return 0
 	case 2:
 		return 1 + g.Rng.Intn(2)
-	}
-	if depth >= g.MaxDepth {
-		return 0
 	}
 	if depth >= 2 {
 		return g.Rng.Intn(2)
@@ -457,7 +457,7 @@ func (g *ValueGen) GenStruct(d *Def, depth int) *Val {
 			}
 		}
 		var v *Val
-		if f.Default != nil && g.Rng.Chance(1, 4) {
+		if f.Default != nil && !isStructy(f.Type) && g.Rng.Chance(1, 4) {
 			v, _ = Eval(f.Default, f.Type) // a value equal to the declared default
 		}
 		if v == nil {
@@ -594,3 +594,27 @@ func NormalizeWire(v *Val) *Val {
 
 // EqualWire compares two values structurally (maps and sets order-insensitive, doubles by bits).
 func EqualWire(a, b *Val) bool { return a.Canon() == b.Canon() }
+
+// HasStructVal reports whether a value contains a struct value anywhere.
+func HasStructVal(v *Val) bool {
+	if v == nil {
+		return false
+	}
+	switch v.Cat {
+	case "struct":
+		return true
+	case "list", "set":
+		for _, e := range v.L {
+			if HasStructVal(e) {
+				return true
+			}
+		}
+	case "map":
+		for _, e := range v.M {
+			if HasStructVal(e[0]) || HasStructVal(e[1]) {
+				return true
+			}
+		}
+	}
+	return false
+}
